@@ -604,6 +604,12 @@ func c15ReadBack(w *WHub, ds, kind string, limit int) ([]string, error) {
 // and the downstream hub's stream parser accepts with the same entities; the
 // concatenation denotes want (ordered for the change feed, by id otherwise).
 func c15CheckBodies(down *kit.Hub, bodies []string, want []*c15Full, ordered bool) string {
+	return c15CheckBodiesX(down, bodies, want, ordered, false)
+}
+
+// collapse: a version that denotes the same as the previous version of its id counts once (for
+// callers that do not speak about how many versions a repeated write leaves behind).
+func c15CheckBodiesX(down *kit.Hub, bodies []string, want []*c15Full, ordered, collapse bool) string {
 	var got []*c15Full
 	for pi, body := range bodies {
 		es, ok := c15RefStream([]byte(body))
@@ -617,6 +623,18 @@ func c15CheckBodies(down *kit.Hub, bodies []string, want []*c15Full, ordered boo
 			return fmt.Sprintf("page %d, downstream hub: %s\nbody=%.2000s", pi, v, body)
 		}
 		got = append(got, es[:len(es)-1]...)
+	}
+	if collapse {
+		cur := map[string]string{}
+		var g2 []*c15Full
+		for _, f := range got {
+			if k, ok := cur[f.ID]; ok && k == f.Key() {
+				continue
+			}
+			cur[f.ID] = f.Key()
+			g2 = append(g2, f)
+		}
+		got = g2
 	}
 	if ordered {
 		return c15SameList(got, want)
